@@ -831,6 +831,14 @@ func c03exec(line string) Result {
 			}
 		}
 	}
+	if c03batchHits > c03batchSeen {
+		tags = append(tags, "compared-with-compiled-go")
+		c03batchSeen = c03batchHits
+	}
+	if c03batchErr != "" && !c03batchErrTagged {
+		tags = append(tags, "compiled-go-batch-unavailable")
+		c03batchErrTagged = true
+	}
 	r := Result{Out: strings.Join(outs, " "), Tags: tags, Nontrivial: len(outs) > 0}
 	if len(viols) > 0 {
 		r.Viol, r.Key = viols[0].desc, viols[0].key
@@ -882,7 +890,11 @@ func c03batchCheck(bkey, gsrc, gs string, addViol func(what, desc string)) {
 	if c03batch == nil {
 		return
 	}
-	if want, ok := c03batch[bkey]; ok && want != gs {
+	want, ok := c03batch[bkey]
+	if ok {
+		c03batchHits++
+	}
+	if ok && want != gs {
 		addViol("value-compiled", fmt.Sprintf("`%s`: gomacro %s, compiled Go %s", gsrc, gs, want))
 	}
 }
@@ -983,6 +995,9 @@ func c03prepare(ops []string) {
 }
 
 var c03batchErr string
+var c03batchHits int // constant conversions compared with compiled Go so far
+var c03batchSeen int
+var c03batchErrTagged bool
 
 
 // ---------------------------------------------------------------- generator
